@@ -358,6 +358,8 @@ def process_stub(ck, case):
             bad.append(("sample_is_inverse_of_base_sample", "transform(sample) is not the base model's sample"))
     # empirical cdf with an explicit sample
     ev = pts[: min(5, len(pts))] * 2.0
+    if smp.shape == (n, d):
+        ev = np.vstack([ev, smp[:1], np.max(smp, axis=0)[None, :]])  # events tied with sample rows: the cdf counts `<=`
     ecdf = np.asarray(t.empirical_cdf(ev.copy(), sample=smp.copy()), dtype=float)
     want_e = np.array([np.mean(np.all(smp <= e, axis=1)) for e in ev])
     if ecdf.shape != want_e.shape or not np.array_equal(ecdf, want_e):
@@ -434,6 +436,11 @@ def process_stub_iform(ck, rng):
             warnings.simplefilter("ignore")
             return np.asarray(virocon.IFORMContour(t, case["alpha"], n_points=case["n_points"]).coordinates, dtype=float)
 
+    if probe_sampler(t, 1, 1.0):
+        ck.count("B_stub_iform_skipped_sampler_dead")
+        t.conditional_sample = orig
+        return
+    seen.clear()
     c1, c2 = contour(), contour()
     seeds_marg = [q[1] for q in base.drawn]
     sig = {"entry": "IFORMContour(TransformedModel)", "predicate": "same_random_state_reproduces"}
@@ -742,6 +749,17 @@ def cond_signature(q):
     return {"entry": SIG_COND, "predicate": "ks_vs_exact_conditional", "input_class": "conditioning quantile <= 0.99"}
 
 
+def probe_sampler(t, dim, given, n=200):
+    """cheap pre-flight: does the sampler deliver n values at all? (a sampler that accepts next to nothing needs
+    100 batches of 10*n draws; with n = 1e5 that is minutes and gigabytes - never start that)"""
+    r = run_conditional_sample(t, n, dim, given, 0, 100)
+    if r["sample"] is None:
+        return r["error"]
+    if r["maxiter_warn"] or len(r["sample"]) != n:
+        return f"only {len(r['sample'])} of {n} values after 100 iterations (MaxIterationWarning)"
+    return None
+
+
 def process_conditional_stat(ck, case):
     """case: {part: E-cond, model, quantile, n, seed}"""
     h = HsS(case["model"])
@@ -751,8 +769,12 @@ def process_conditional_stat(ck, case):
     ck.case(case, nontrivial=True)
     ck.count("part=E-conditional")
     ck.count(f"E_quantile={q}")
-    impl = run_conditional_sample(t, n, 1, hs, seed, 100)
     sig = cond_signature(q)
+    pre = probe_sampler(t, 1, hs)
+    if pre:
+        ck.fail(sig, case, f"Hs = {hs!r} (quantile {q}): conditional_sample(200, 1, Hs): {pre} (conditional_icdf then returns 0)")
+        return
+    impl = run_conditional_sample(t, n, 1, hs, seed, 100)
     eps = dkw_eps(n)
     if impl["sample"] is None:
         ck.fail(sig, case, f"Hs = {hs!r} (quantile {q}): {impl['error']} - no sample at all (conditional_icdf then returns 0)")
@@ -790,6 +812,56 @@ def process_conditional_stat(ck, case):
             if not (lo <= v <= hi):
                 ck.fail({"entry": "MultivariateModel.conditional_icdf", "predicate": "matches_exact_conditional", "input_class": sig["input_class"]},
                         case, f"conditional_icdf({p_}) given Hs={hs!r} has exact conditional probability {v!r}, outside [{lo:.5f}, {hi:.5f}]")
+
+
+def _wind_alpha(x, a=2.0, b=100.0):
+    return a + b * x
+
+
+def process_conditional_3d(ck, case):
+    """three variables (Hs, S | Hs, V | S) transformed to (Hs, Tz, V): the conditional of V given (Hs, Tz) is the
+    Weibull template at s = F hs / tz^2 - exercises the placement of the conditioning values in the evaluation row"""
+    virocon, _, jm, predefined = V()
+    h = HsS(case["model"])
+    get = predefined.get_Windmeier_EW_Hs_S if case["model"]["kind"] == "windmeier" else predefined.get_Nonzero_EW_Hs_S
+    dd, _, _, tr = get()
+    a0, b0, d0 = case["model"]["hs"]
+    dd[0]["distribution"] = virocon.ExponentiatedWeibullDistribution(alpha=a0, beta=b0, delta=d0)
+    pa, pb = dd[1]["parameters"]["alpha"], dd[1]["parameters"]["beta"]
+    pa.parameters = dict(zip(pa.parameters.keys(), case["model"]["alpha"]))
+    pb.parameters = dict(zip(pb.parameters.keys(), case["model"]["beta"]))
+    wa, wb, wbeta = case["wind"]
+    dep = virocon.DependenceFunction(_wind_alpha)
+    dep.parameters = {"a": wa, "b": wb}
+    dd.append({"distribution": virocon.WeibullDistribution(f_beta=wbeta, f_gamma=0.0), "conditional_on": 1, "parameters": {"alpha": dep}})
+    base = virocon.GlobalHierarchicalModel(dd)
+    T = lambda x: np.c_[tr["transform"](np.asarray(x)[:, :2]), np.asarray(x)[:, 2]]
+    I = lambda y: np.c_[tr["inverse"](np.asarray(y)[:, :2]), np.asarray(y)[:, 2]]
+    J = lambda x: tr["jacobian"](np.asarray(x)[:, :2])
+    t = jm.TransformedModel(base, T, I, J)
+    ck.case(case, nontrivial=True)
+    ck.count("part=E-conditional-3d")
+    hs = float(h.hs_icdf(case["q_hs"]))
+    tz = cond_q(h, hs, case["q_tz"])
+    s_val = h.F * hs / tz ** 2
+    n, seed = case["n"], case["seed"]
+    sig = {"entry": SIG_COND, "predicate": "ks_vs_exact_conditional", "input_class": "three variables, bulk conditioning values"}
+    pre = probe_sampler(t, 2, [hs, tz])
+    if pre:
+        ck.fail(sig, case, f"given (Hs, Tz) = ({hs!r}, {tz!r}): conditional_sample(200, 2, given): {pre}")
+        return
+    impl = run_conditional_sample(t, n, 2, [hs, tz], seed, 100)
+    smp = impl["sample"]
+    if smp is None or len(smp) != n:
+        ck.fail(sig, case, f"given (Hs, Tz) = ({hs!r}, {tz!r}): {impl['error']} / {None if smp is None else len(smp)} values")
+        return
+    al = wa + wb * s_val
+    u = -np.expm1(-(smp / al) ** wbeta)
+    d = ks_uniform(u)
+    ck.hyp_checked += 1
+    if d > dkw_eps(n):
+        ck.fail(sig, case, f"given (Hs, Tz) = ({hs!r}, {tz!r}) (steepness {s_val!r}): KS distance of {n} conditional samples of V to the "
+                           f"exact conditional Weibull(alpha={al!r}, beta={wbeta}) is {d:.4f} > {dkw_eps(n):.4f}")
 
 
 def cond_q(h, hs, p):
@@ -882,6 +954,11 @@ def process_iform(ck, case):
             warnings.simplefilter("ignore")
             return np.asarray(virocon.IFORMContour(t, alpha, n_points=n_points).coordinates, dtype=float)
 
+    hs50 = float(h.hs_icdf(0.5))
+    pre = probe_sampler(t, 1, hs50)
+    if pre:
+        ck.fail(cond_signature(0.5), case, f"Hs = {hs50!r} (median): conditional_sample(200, 1, Hs): {pre}")
+        return
     c1 = contour()
     c2 = contour()
     if not np.array_equal(c1, c2):
@@ -942,6 +1019,8 @@ def dispatch(ck, case):
         process_replay(ck, case)
     elif part == "E-cond":
         process_conditional_stat(ck, case)
+    elif part == "E-cond3":
+        process_conditional_3d(ck, case)
     elif part == "E-model":
         process_model_stat(ck, case)
     elif part == "E-iform":
@@ -973,19 +1052,24 @@ def main(ck):
         "reproduced exactly when random_state is set": "two runs compared bit for bit",
     }
     process_consts(ck)
-    for case in corpus_cases():
-        dispatch(ck, case)
+    # cheap and decisive parts first: (A), (B)
     process_transforms(ck, 40)
-    # (B)
     for n_dim, triple in ((2, "stub"), (2, "shipped"), (3, "stub")):
         process_stub(ck, make_stub_case(rng, n_dim=n_dim, triple=triple))
-    for _ in range(150 if thorough else 30):
+    for _ in range(400 if thorough else 60):
         process_stub(ck, make_stub_case(rng))
     process_stub_cached_sample(ck, rng)
+    if ck.failures or ck.divergences:
+        # a transform / Jacobian / composition that is already wrong makes the Monte-Carlo parts meaningless
+        # (and, with a density that accepts nothing, very slow): report what was found
+        ck.extra["stopped_after"] = "A/B (failure found; Monte-Carlo parts skipped)"
+        return
+    for case in corpus_cases():
+        dispatch(ck, case)
     for _ in range(4 if thorough else 2):
         process_stub_iform(ck, rng)
     # (D)
-    for case in gen_replay_cases(rng, 160 if thorough else 36, 40 if thorough else 10, thorough):
+    for case in gen_replay_cases(rng, 500 if thorough else 90, 120 if thorough else 30, thorough):
         process_replay(ck, case)
     # (E)
     kinds = ["windmeier", "nonzero"]
@@ -999,19 +1083,28 @@ def main(ck):
         for spec in specs[:6]:
             process_model_stat(ck, {"part": "E-model", "model": spec, "n": 100000, "seed": int(rng.integers(0, 2 ** 31)),
                                     "n_cdf": 2, "cached": spec is specs[0]})
-        for spec, alpha in ((specs[0], 2e-3), (specs[1], 5e-3), (specs[1], 2e-2), (specs[2], 5e-3), (specs[3], 1e-2)):
+        for spec, alpha in ((specs[0], 2e-3), (specs[1], 5e-3), (specs[1], 2e-2), (specs[2], 5e-3), (specs[3], 1e-2),
+                            (specs[4], 2e-3), (specs[5], 5e-2), (specs[6], 5e-3)):
             process_iform(ck, {"part": "E-iform", "model": spec, "alpha": alpha, "n_points": 12, "precision_factor": 0.1,
                                "random_state": int(rng.integers(0, 1000))})
     else:
         other = kinds[1 - ck.seed % 2]
         rnd = random_hss(rng)
-        plan = [(predef_hss(main_kind), 0.5, True), (predef_hss(other), 0.99, False), (predef_hss(other), 0.9999, False),
-                (rnd, 0.9, False), (rnd, 0.999, False), (predef_hss(other), 1 - 1e-6, False)]
+        plan = [(predef_hss(main_kind), 0.5, True), (predef_hss(main_kind), 0.9, False), (predef_hss(main_kind), 0.99, False),
+                (predef_hss(other), 0.5, False), (predef_hss(other), 0.99, False), (predef_hss(other), 0.9999, False),
+                (rnd, 0.5, False), (rnd, 0.9, False), (rnd, 0.99, False), (rnd, 0.999, False), (predef_hss(other), 1 - 1e-6, False)]
         for spec, q, wr in plan:
             process_conditional_stat(ck, {"part": "E-cond", "model": spec, "quantile": q, "n": 100000 if q < 0.99999 else 2000,
                                           "seed": int(rng.integers(0, 2 ** 31)), "wrappers": wr})
         process_model_stat(ck, {"part": "E-model", "model": predef_hss(other), "n": 100000, "seed": int(rng.integers(0, 2 ** 31)),
                                 "n_cdf": 1})
+        process_iform(ck, {"part": "E-iform", "model": predef_hss(other) if ck.seed % 3 else rnd, "alpha": float(rng.choice([2e-3, 1e-2, 2e-2])),
+                           "n_points": 12, "precision_factor": 0.1, "random_state": int(rng.integers(0, 1000))})
+    for i in range(6 if thorough else 2):
+        process_conditional_3d(ck, {"part": "E-cond3", "model": predef_hss(kinds[i % 2]) if i < 2 else random_hss(rng),
+                                    "wind": [float(rng.uniform(1, 3)), float(rng.uniform(50, 150)), float(rng.uniform(1.5, 3))],
+                                    "q_hs": float(rng.uniform(0.2, 0.95)), "q_tz": float(rng.uniform(0.1, 0.9)),
+                                    "n": 100000, "seed": int(rng.integers(0, 2 ** 31))})
     ck.extra["exhaustive"] = False
 
 
